@@ -243,6 +243,33 @@ class PageRenderer:
             # For now, we assume header text matches the current page columns.
             pass
 
+            # Column widths given for (or inherited from) the full table are
+            # sliced like the body's when page_by/subline_by removed columns,
+            # so that the header cells stay aligned with the data columns.
+            if (
+                isinstance(document.df, pl.DataFrame)
+                and isinstance(page.data, pl.DataFrame)
+                and header_copy.text is not None
+                and header_copy.col_rel_width is not None
+            ):
+                all_columns = list(document.df.columns)
+                kept = [
+                    j for j, col in enumerate(all_columns) if col in page.data.columns
+                ]
+                n_text = (
+                    header_copy.text.shape[1]
+                    if isinstance(header_copy.text, pl.DataFrame)
+                    else len(header_copy.text)
+                )
+                if (
+                    len(kept) < len(all_columns)
+                    and len(header_copy.col_rel_width) == len(all_columns)
+                    and n_text == len(kept)
+                ):
+                    header_copy.col_rel_width = [
+                        header_copy.col_rel_width[j] for j in kept
+                    ]
+
             # Apply top border for first page/first header
             if (
                 page.is_first_page
